@@ -75,7 +75,7 @@ def _tail_checks(R, g, grid, model, mspec, label):
     l, r = grid.truncations[0]
     if any(tuple(t) != (l, r) for t in grid.truncations):
         R.violation(f"{g['ctor']}-truncations-differ-across-axes", f"{label}: truncations {grid.truncations}", {"grid": g})
-    fr_l, fr_r = [], []
+    fr_l, fr_r, round_l, round_r = [], [], [], []
     for ms, m in zip(margins, models):
         dens = m.levy_triplet.nu.__call__
         alpha = W.activity_index(ms)
@@ -94,10 +94,14 @@ def _tail_checks(R, g, grid, model, mspec, label):
             return
         fr_l.append(out_l / tot_l)
         fr_r.append(out_r / tot_r)
-    for side, fr in (("left", fr_l), ("right", fr_r)):
+        # the closed-form tail masses carry an absolute rounding of ~1e-16 x the total mass: on the thin side of a skewed measure
+        # that is a relative error of 1e-16 x total / side on the fraction the constructor solves for
+        round_l.append(1e-14 * (tot_r + tot_l) / tot_l)
+        round_r.append(1e-14 * (tot_r + tot_l) / tot_r)
+    for side, fr, rnd in (("left", fr_l, round_l), ("right", fr_r, round_r)):
         R.hit("tail_probability_checks")
         f = max(fr)
-        if not (abs(f - (1 - p)) <= 1e-6 * (1 - p) + 1e-13):
+        if not (abs(f - (1 - p)) <= 1e-6 * (1 - p) + 1e-13 + max(rnd)):
             R.violation(f"{g['ctor']}-tail-probability", f"{label}: {g['ctor']} grid with truncation probability {p}: the {side} "
                         f"tail beyond the truncation holds {f!r} of the mass beyond h/2 (largest over the margins), promised "
                         f"{1 - p!r}", {"model": mspec, "grid": g, "l": l, "r": r, "fractions": fr})
